@@ -9,6 +9,7 @@ CHECKS = {
  "C16": dict(text="Bounded model checking of reuse: generated Lexer.Reset (any earlier state, and real histories of Scan calls) and generated Parser.Parse on a used parser object are compared, token by token / action call by action call, with fresh objects on the same input; abstract tables cover all automata up to the state bound, corpus tables confirm counterexamples.", ref="7 C16", tech="self-composition (2-safety) harness executed symbolically over abstract tables, QF_BV, decided by z3/cvc5"),
  "C17": dict(text="Non-interference by solver: every store executed by the generated entry points on abstract tables and symbolic input must target an object allocated by the caller's own calls; 'path condition AND target pre-exists' is unsat for every store, so the generated code performs no write to shared state and results per goroutine are the sequential ones.", ref="7 C17", tech="store-target obligations from symbolic execution of the generated Go over abstract tables (QF_BV), decided by z3/cvc5"),
  "C18": dict(text="Bounded model checking of the real DisjunctRangeSet.AddRange/insertRange/AddLexTNode/List/Range and Item.match (go/ssa -> QF_BV): one inductive step from an arbitrary well-formed class set plus a from-empty run; unsat for every rune/range value inside the bound.", ref="7 C18", tech="symbolic execution of go/ssa into QF_BV, inductive step + BMC, decided by z3/cvc5"),
+ "C01": dict(text="Bounded model checking of the generated Lexer.Scan (tables and loop emitted by the current gocc) against a reference lexer over /verif's own Thompson NFA of each corpus lexical grammar, transcribing the property (maximal viable prefix, '.' only where nothing more specific matches, priority literal > declaration order, ignored text skipped, INVALID consumes the killing character, EOF sticky): for every source up to the byte bound and every reachable start offset, same token name, start, length and lexer offset.", ref="7 C01", tech="symbolic execution of generated Go against an executable NFA reference lexer (go/ssa -> QF_BV equivalence query), decided by z3/cvc5"),
  "C02": dict(text="Bounded model checking of the generated Parser.Parse (tables and driver emitted by the current gocc on every run) against a CYK recogniser over /verif's own representation of each corpus grammar: for every token sequence up to the length bound, err == nil iff the sequence is a sentence; termination = unwinding assertion of the parse loop.", ref="7 C02", tech="symbolic execution of generated Go (go/ssa -> QF_BV, path forking decided by the solver) against an executable CYK oracle; z3/cvc5"),
  "C03": dict(text="Bounded model checking of the generated parser with recording actions on every alternative: for every token sequence up to the bound and every choice of a failing action, the recorded calls are the post-order evaluation of a derivation tree with the scanner's own token objects at the leaves; default actions checked on the generated reduce functions.", ref="7 C03", tech="symbolic execution of generated Go with trace-checking harness (QF_BV), decided by z3/cvc5"),
  "C04": dict(text="Kernel level only: bounded model checking of (*ItemSet).Action on every item set of up to K arbitrary items in every order (a conflict is reported iff two different actions compete; accept competing with a reduction is refused by a panic) and of main.handleConflicts (non-zero exit iff conflicts and no -a). The grammar axis is not symbolic; closure/goto are covered only through the corpus pipelines of C02/C05.", ref="7 C04", tech="symbolic execution of go/ssa into QF_BV (path forking in Action), decided by z3/cvc5"),
